@@ -1,6 +1,7 @@
 import Pi2.Codec
 import Pi2.Notation
 import Pi2.Match
+import Pi2.PrettyPat
 /-!
 # Wire syntax of the correspondence protocol (DESIGN.md §9b): S-expressions
 
@@ -156,3 +157,19 @@ partial def npatToStr : NPat → String
 
 def substToStr (s : List (Nat × NPat)) : String :=
   "(" ++ " ".intercalate (s.map fun (k, v) => s!"({k} {npatToStr v})") ++ ")"
+
+
+open Sexp in
+partial def ppOfSexp : Sexp → Option PP
+  | .list [.atom "evar", n] => do pure (.evar (← nat? n))
+  | .list [.atom "svar", n] => do pure (.svar (← nat? n))
+  | .list [.atom "sym", .atom n] => some (.sym n)
+  | .list [.atom "imp", l, r] => do pure (.imp (← ppOfSexp l) (← ppOfSexp r))
+  | .list [.atom "app", l, r] => do pure (.app (← ppOfSexp l) (← ppOfSexp r))
+  | .list [.atom "ex", n, p] => do pure (.ex (← nat? n) (← ppOfSexp p))
+  | .list [.atom "mu", n, p] => do pure (.mu (← nat? n) (← ppOfSexp p))
+  | .list [.atom "mv", n] => do pure (.mv (← nat? n))
+  | .list [.atom "esub", p, n, q] => do pure (.esub (← ppOfSexp p) (← nat? n) (← ppOfSexp q))
+  | .list [.atom "ssub", p, n, q] => do pure (.ssub (← ppOfSexp p) (← nat? n) (← ppOfSexp q))
+  | .list (.atom "napp" :: i :: args) => do pure (.napp (← nat? i) (← args.mapM ppOfSexp))
+  | _ => none
